@@ -263,7 +263,8 @@ def run_check(prop, tier="quick", seed=None, nproc=None, runs=None, budget=None,
         "worker_interpreters": len(done), "batches_not_run_for_budget": skipped,
         "hash_seeds_used": len(set(h for _, h in hashseeds)),
         "builds_used": sorted(set(b for b, _ in hashseeds)),
-        "simulated_time": "none: xdeps has no clock; logical time = simulator events (container accesses + callbacks)",
+        "simulated_time": "none: xdeps has no clock or timer to simulate; logical time = simulator events (manager: container "
+                          "accesses + callback invocations; table: API operations; optimizer: plant evaluations)",
         "logical_time_events": stats.get("events", 0),
         "faults_fired": faults,
         "probes": probes,
